@@ -154,6 +154,38 @@ def nonEmpty (s : Store) (f : ObjId → Bool) : Bool := (List.range s.n).any f
 
 end Store
 
+namespace Row
+
+/-- Set.reverse_add on one SetData: `setdata.add(item); count += 1; removed.remove(item) / added.add(item)` -/
+def revAdd (r : Row) (c : AttrId) (item : ObjId) (inRemoved : Bool) : Row :=
+  { r with items := set2 r.items c item true, count := set1 r.count c (r.count c + 1),
+           removed := if inRemoved then set2 r.removed c item false else r.removed,
+           added := if inRemoved then r.added else set2 r.added c item true }
+
+/-- its undo closure: `setdata.remove(item); count -= 1; removed.add(item) / added.remove(item)` -/
+def unRevAdd (r : Row) (c : AttrId) (item : ObjId) (inRemoved : Bool) : Row :=
+  { r with items := set2 r.items c item false, count := set1 r.count c (r.count c - 1),
+           removed := if inRemoved then set2 r.removed c item true else r.removed,
+           added := if inRemoved then r.added else set2 r.added c item false }
+
+/-- Set.reverse_remove on one SetData -/
+def revRemove (r : Row) (c : AttrId) (item : ObjId) (inAdded : Bool) : Row :=
+  { r with items := set2 r.items c item false, count := set1 r.count c (r.count c - 1),
+           added := if inAdded then set2 r.added c item false else r.added,
+           removed := if inAdded then r.removed else set2 r.removed c item true }
+
+/-- its undo closure -/
+def unRevRemove (r : Row) (c : AttrId) (item : ObjId) (inAdded : Bool) : Row :=
+  { r with items := set2 r.items c item true, count := set1 r.count c (r.count c + 1),
+           added := if inAdded then set2 r.added c item true else r.added,
+           removed := if inAdded then r.removed else set2 r.removed c item false }
+
+/-- write one whole SetData -/
+def putColl (r : Row) (c : AttrId) (items added removed : ObjId → Bool) (count : Int) : Row :=
+  { r with items := set1 r.items c items, added := set1 r.added c added, removed := set1 r.removed c removed, count := set1 r.count c count }
+
+end Row
+
 /-! ## 3. Undo trail -/
 
 /-- one recorded index move `(cache_index, old_key, new_key)` -/
@@ -209,20 +241,13 @@ def undo1 (s : Store) : Undo → Store
     let s := if pop then popSave o s else s
     moves.foldl (undoMove o) s
   | .revAdd c obj item inRemoved wasMod =>
-    let s := s.upd obj fun r => { r with
-      items := set2 r.items c item false, count := set1 r.count c (r.count c - 1),
-      removed := if inRemoved then set2 r.removed c item true else r.removed,
-      added := if inRemoved then r.added else set2 r.added c item false }
+    let s := s.upd obj fun r => r.unRevAdd c item inRemoved
     if wasMod then s else { s with modColl := set2 s.modColl c obj false }
   | .revRemove c obj item inAdded wasMod =>
-    let s := s.upd obj fun r => { r with
-      items := set2 r.items c item true, count := set1 r.count c (r.count c + 1),
-      added := if inAdded then set2 r.added c item true else r.added,
-      removed := if inAdded then r.removed else set2 r.removed c item false }
+    let s := s.upd obj fun r => r.unRevRemove c item inAdded
     if wasMod then s else { s with modColl := set2 s.modColl c obj false }
   | .rewrite o c items added removed count wasMod =>
-    let s := s.upd o fun r => { r with
-      items := set1 r.items c items, added := set1 r.added c added, removed := set1 r.removed c removed, count := set1 r.count c count }
+    let s := s.upd o fun r => r.putColl c items added removed count
     if wasMod then s else { s with modColl := set2 s.modColl c o false }
   | .created id e pk =>
     let s := { s with n := id }                                        -- cache.objects.discard(obj)
@@ -383,10 +408,7 @@ def reverseAdd1 (c : AttrId) (item : ObjId) (obj : ObjId) (st : St) : Res :=
   else
     let inRemoved := r.removed c item
     let wasMod := st.store.modColl c obj
-    let s1 := st.store.upd obj fun r => { r with
-      items := set2 r.items c item true, count := set1 r.count c (r.count c + 1),
-      removed := if inRemoved then set2 r.removed c item false else r.removed,
-      added := if inRemoved then r.added else set2 r.added c item true }
+    let s1 := st.store.upd obj fun r => r.revAdd c item inRemoved
     let s2 := { s1 with modColl := set2 s1.modColl c obj true }
     .ok ((st.setStore s2).log (.revAdd c obj item inRemoved wasMod))
 
@@ -403,10 +425,7 @@ def reverseRemove1 (c : AttrId) (item : ObjId) (obj : ObjId) (st : St) : Res :=
   else
     let inAdded := r.added c item
     let wasMod := st.store.modColl c obj
-    let s1 := st.store.upd obj fun r => { r with
-      items := set2 r.items c item false, count := set1 r.count c (r.count c - 1),
-      added := if inAdded then set2 r.added c item false else r.added,
-      removed := if inAdded then r.removed else set2 r.removed c item true }
+    let s1 := st.store.upd obj fun r => r.revRemove c item inAdded
     let s2 := { s1 with modColl := set2 s1.modColl c obj true }
     .ok ((st.setStore s2).log (.revRemove c obj item inAdded wasMod))
 
@@ -480,8 +499,7 @@ def rewriteSet (s : Store) (o : ObjId) (c : AttrId) (new : ObjId → Bool) (toAd
       else toRemove'
     else removed1
   let cnt : Int := ((List.range s.n).filter new).length
-  let s1 := s.upd o fun r => { r with items := set1 r.items c new, count := set1 r.count c cnt,
-                                      added := set1 r.added c added2, removed := set1 r.removed c removed2 }
+  let s1 := s.upd o fun r => r.putColl c new added2 removed2 cnt
   { s1 with modColl := set2 s1.modColl c o true, modKey := set1 s1.modKey c true, modified := true }
 
 /-- `Set.__set__(attr=c, obj=o, new_items, undo_funcs)`; `del` is `Entity._delete_` (cascade branch).
